@@ -131,6 +131,16 @@ func c15Tables() []c10Table {
 		t.AddRowItems(strings.Repeat("x", 600), strings.Repeat("y\"", 1000))
 		t.AddRowItems("short", strings.Repeat("é", 300))
 	}})
+	out = append(out, c10Table{"repeated rows: three identical rows, two identical two-line rows, a row equal to the header", func(t tabular.Table) {
+		t.AddHeaders("same", "row")
+		t.AddRowItems("same", "row")
+		t.AddRowItems("a", "b")
+		t.AddRowItems("a", "b")
+		t.AddRowItems("a", "b")
+		t.AddSeparator()
+		t.AddRowItems("l1\nl2", "x")
+		t.AddRowItems("l1\nl2", "x")
+	}})
 	return out
 }
 
